@@ -107,6 +107,11 @@ pub trait System: Sync {
     /// evaluated on every transition arrival, not once per merged state.
     fn arrival(&self, _hist: &[Step], _cx: &mut Cx) {}
     fn canon(&self, obj: &Self::Obj, out: &mut Vec<u8>);
+    /// The raw 8-byte words of the collection struct itself (not of what it points to).  Used with `--raw`:
+    /// words that are stable between independent replays of one history (i.e. everything but heap pointers)
+    /// join the state identity, so that state a changed implementation keeps in fields the snapshot hook
+    /// does not copy (a cached slot, a memo, a counter) distinguishes states instead of being merged away.
+    fn raw_words(&self, _obj: &Self::Obj, _out: &mut Vec<u64>) {}
     fn nontrivial(&self, obj: &Self::Obj) -> bool;
     /// May another fault be injected after this history?
     fn may_inject(&self, _obj: &Self::Obj) -> bool {
@@ -220,6 +225,8 @@ fn shard(fp: u128) -> usize {
 #[derive(Clone, Copy)]
 struct Node {
     fp: u128,
+    /// fingerprint of the canonical (snapshot) part alone: what the replay determinism check compares
+    cfp: u128,
     parent: u32,
     step: Step,
     depth: u32,
@@ -230,6 +237,7 @@ struct Cand {
     parent: u32,
     step: Step,
     nontrivial: bool,
+    cfp: u128,
 }
 
 #[derive(Clone, Debug)]
@@ -263,6 +271,8 @@ pub struct Config {
     pub quq_tail: u32,
     /// additional update levels (beyond `quq`) after which only the observation suite is run
     pub quq_cs: u32,
+    /// raw-word state identity: 0 = off, otherwise the maximal number of raw variants kept per canonical state
+    pub raw: u32,
 }
 
 pub struct Report {
@@ -326,6 +336,7 @@ impl Report {
 /// Rebuild the object reached by `hist` from a fresh constructor on the real code.
 pub fn rebuild<S: System>(sys: &S, hist: &[Step], cx: &mut Cx) -> Option<S::Obj> {
     rt::hist_reset();
+    rt::scrub_stack();
     let mut obj = sys.fresh(cx)?;
     for &st in hist {
         rt::hist_push(st.enc());
@@ -338,6 +349,7 @@ pub fn rebuild<S: System>(sys: &S, hist: &[Step], cx: &mut Cx) -> Option<S::Obj>
 }
 
 struct Shared<'a> {
+    raw_mask: &'a Vec<bool>,
     nodes: &'a Vec<Node>,
     visited: &'a Vec<FpSet>,
     frontier: &'a Vec<u32>,
@@ -420,7 +432,8 @@ fn arrive<S: System>(
     let st = *hist.last().unwrap();
     buf.clear();
     sys.canon(obj, buf);
-    let fp = fingerprint(buf);
+    let cfp = fingerprint(buf);
+    let fp = if cfg.raw > 0 { raw_extend(sys, obj, sh.raw_mask, buf) } else { cfp };
     let seen = sh.visited[shard(fp)].contains(&fp);
     let nontrivial = sys.nontrivial(obj);
     if !seen || cfg.audit {
@@ -501,7 +514,7 @@ fn arrive<S: System>(
         }
     }
     if !seen {
-        let c = Cand { parent: sid, step: st, nontrivial };
+        let c = Cand { parent: sid, step: st, nontrivial, cfp };
         match out.cands.get_mut(&fp) {
             Some(old) => {
                 if (c.parent, c.step) < (old.parent, old.step) {
@@ -513,6 +526,94 @@ fn arrive<S: System>(
             }
         }
     }
+}
+
+/// Append the stable raw words of the subject struct to the canonical string and fingerprint the whole.
+fn raw_extend<S: System>(sys: &S, obj: &S::Obj, mask: &[bool], buf: &mut Vec<u8>) -> u128 {
+    let mut w: Vec<u64> = Vec::with_capacity(16);
+    sys.raw_words(obj, &mut w);
+    if std::env::var_os("ITREE_RAW_DEBUG").is_some() {
+        static SEEN: Mutex<Option<HashMap<Vec<u8>, Vec<u64>>>> = Mutex::new(None);
+        let mut g = SEEN.lock().unwrap();
+        let m = g.get_or_insert_with(HashMap::new);
+        let wm: Vec<u64> = w.iter().enumerate().map(|(i, x)| if mask.get(i).copied().unwrap_or(false) { *x } else { 0 }).collect();
+        match m.get(buf.as_slice()) {
+            Some(old) if *old != wm => eprintln!("RAWDIFF {:x?} vs {:x?}", old, wm),
+            Some(_) => {}
+            None => {
+                m.insert(buf.clone(), wm);
+            }
+        }
+    }
+    buf.extend_from_slice(b"|raw|");
+    for (i, x) in w.iter().enumerate() {
+        if mask.get(i).copied().unwrap_or(false) {
+            buf.extend_from_slice(&x.to_le_bytes());
+        }
+    }
+    fingerprint(buf)
+}
+
+/// Which raw words are data and which are heap pointers (or otherwise unstable)?  The same short history is
+/// replayed in several threads of their own (each gets a malloc arena of its own, so pointers differ in their
+/// high bits too), twice per thread with junk allocations in between; a word is kept only if it is identical
+/// in all of them, and this is repeated for several histories (a word must be stable for each).
+fn raw_calibrate<S: System>(sys: &S) -> Vec<bool> {
+    let mut mask: Vec<bool> = vec![];
+    for variant in 0..6u32 {
+        let runs: Vec<Vec<u64>> = std::thread::scope(|sc| {
+            let hs: Vec<_> = (0..4u32)
+                .map(|k| {
+                    sc.spawn(move || {
+                        let mut outs = vec![];
+                        let mut junk: Vec<Vec<u8>> = vec![];
+                        for rep in 0..2u32 {
+                            for j in 0..(k * 3 + rep * 5 + 1) {
+                                junk.push(vec![0u8; 24 + 40 * j as usize]);
+                            }
+                            let mut cx = Cx::new();
+                            cx.muted = true;
+                            rt::hist_reset();
+                            rt::scrub_stack();
+                            let Some(mut o) = sys.fresh(&mut cx) else {
+                                continue;
+                            };
+                            let mut ops = vec![];
+                            for i in 0..(2 + 2 * variant) {
+                                ops.clear();
+                                sys.enabled(&o, &mut ops);
+                                if ops.is_empty() {
+                                    break;
+                                }
+                                let op = ops[((i * 7 + 3 + variant * 5) as usize) % ops.len()];
+                                sys.step(&mut o, Step::plain(op), &mut cx);
+                            }
+                            let mut w = vec![];
+                            sys.raw_words(&o, &mut w);
+                            outs.push(w);
+                        }
+                        rt::hist_idle();
+                        outs
+                    })
+                })
+                .collect();
+            hs.into_iter().flat_map(|h| h.join().expect("calibration thread panicked")).collect()
+        });
+        let Some(first) = runs.first() else {
+            continue;
+        };
+        if mask.is_empty() {
+            mask = vec![true; first.len()];
+        }
+        for r in &runs {
+            for i in 0..mask.len() {
+                if r.get(i) != first.get(i) {
+                    mask[i] = false;
+                }
+            }
+        }
+    }
+    mask
 }
 
 /// Unmerged enumeration of every suffix of length <= depth from the state reached by `hist`.
@@ -733,7 +834,7 @@ fn worker<S: System>(sys: &S, cfg: &Config, sh: &Shared, wid: usize) -> WorkerOu
             };
             buf.clear();
             sys.canon(&base, &mut buf);
-            if fingerprint(&buf) != sh.nodes[sid as usize].fp {
+            if fingerprint(&buf) != sh.nodes[sid as usize].cfp {
                 *sh.err.lock().unwrap() = Some(format!("replay divergence: rebuilt state differs from the recorded one for history {:?}", hist.iter().map(|s| sys.fmt_step(*s)).collect::<Vec<_>>()));
                 sh.stop.store(true, Ordering::Relaxed);
                 break 'outer;
@@ -862,8 +963,12 @@ pub fn explore<S: System>(sys: &S, cfg: &Config) -> Report {
     let mut all_viols: HashMap<(String, String), (Violation, u64)> = HashMap::new();
     let mut classes: HashMap<&'static str, HashSet<u64>> = HashMap::new();
 
+    let raw_mask: Vec<bool> = if cfg.raw > 0 { raw_calibrate(sys) } else { vec![] };
+    let mut raw_variants: HashMap<u128, u32> = HashMap::new();
+    let mut raw_dropped = 0u64;
     // initial state
     rt::hist_reset();
+    rt::scrub_stack();
     let init = sys.fresh(&mut cx);
     let mut nodes: Vec<Node> = vec![];
     let mut visited: Vec<FpSet> = (0..SHARDS).map(|_| FpSet::default()).collect();
@@ -876,8 +981,9 @@ pub fn explore<S: System>(sys: &S, cfg: &Config) -> Report {
                 classes.entry(k).or_default().insert(h);
             }
             sys.canon(&obj, &mut buf);
-            let fp = fingerprint(&buf);
-            nodes.push(Node { fp, parent: 0, step: Step::plain(0), depth: 0 });
+            let cfp = fingerprint(&buf);
+            let fp = if cfg.raw > 0 { raw_extend(sys, &obj, &raw_mask, &mut buf) } else { cfp };
+            nodes.push(Node { fp, cfp, parent: 0, step: Step::plain(0), depth: 0 });
             visited[shard(fp)].insert(fp);
             frontier.push(0);
             if sys.nontrivial(&obj) {
@@ -906,6 +1012,7 @@ pub fn explore<S: System>(sys: &S, cfg: &Config) -> Report {
             break;
         }
         let sh = Shared {
+            raw_mask: &raw_mask,
             nodes: &nodes,
             visited: &visited,
             frontier: &frontier,
@@ -1012,8 +1119,18 @@ pub fn explore<S: System>(sys: &S, cfg: &Config) -> Report {
         frontier = Vec::with_capacity(newv.len());
         depth += 1;
         for (fp, c) in newv {
+            if cfg.raw > 0 {
+                // at most `raw` variants of one canonical state: should a raw word turn out to be unstable
+                // (padding, a pointer the calibration took for data) the search still terminates
+                let n = raw_variants.entry(c.cfp).or_insert(0);
+                if *n >= cfg.raw {
+                    raw_dropped += 1;
+                    continue;
+                }
+                *n += 1;
+            }
             let id = nodes.len() as u32;
-            nodes.push(Node { fp, parent: c.parent, step: c.step, depth });
+            nodes.push(Node { fp, cfp: c.cfp, parent: c.parent, step: c.step, depth });
             visited[shard(fp)].insert(fp);
             frontier.push(id);
             if c.nontrivial {
@@ -1033,6 +1150,14 @@ pub fn explore<S: System>(sys: &S, cfg: &Config) -> Report {
         }
     }
     done.store(true, Ordering::Relaxed);
+    if cfg.raw > 0 {
+        let canon_states = nodes.iter().map(|n| n.cfp).collect::<HashSet<u128>>().len() as u64;
+        rep.counters.insert("raw_identity_canonical_states".into(), canon_states);
+        rep.counters.insert("raw_identity_extra_variants".into(), nodes.len() as u64 - canon_states);
+        rep.counters.insert("raw_identity_variants_dropped_at_cap".into(), raw_dropped);
+        rep.counters.insert("raw_identity_stable_words".into(), raw_mask.iter().filter(|b| **b).count() as u64);
+        rep.counters.insert("raw_identity_masked_words".into(), raw_mask.iter().filter(|b| !**b).count() as u64);
+    }
     rep.states = nodes.len() as u64;
     rep.exhaustive = capped.is_empty() && all_viols.is_empty();
     if capped.is_empty() && !all_viols.is_empty() {
